@@ -13,6 +13,7 @@ pub mod compile;
 pub mod context;
 pub mod declaration;
 pub mod def;
+pub mod freshen;
 pub mod program;
 pub mod terms;
 pub mod types;
